@@ -5,6 +5,7 @@ import (
 	"encoding/binary"
 	"encoding/hex"
 	"fmt"
+	"net/http"
 	"sort"
 	"strings"
 	"time"
@@ -609,6 +610,10 @@ func C43(e *simkern.Env) {
 	if e.Tier == "thorough" {
 		callsPer = 2 + tp.Draw(6)
 	}
+	// the dispatch context may already carry a span (tracing middleware in
+	// front of the handler; a connection-level span on a pipe): the caller's
+	// traceparent still decides the parent
+	ambient := tp.Bool(1, 3)
 	e.Knob("tracing", cfg.tracing)
 	e.Knob("metrics", cfg.metrics)
 	e.Knob("sampler", []string{"always", "parent-based", "never"}[cfg.sampler])
@@ -617,12 +622,26 @@ func C43(e *simkern.Env) {
 	e.Knob("batch_limit", batchLimit)
 	e.Knob("http_clients", nHTTP)
 	e.Knob("pipe_connections", nPipe)
+	e.Knob("ambient_span_in_context", ambient)
 
 	var sample []string
 	left := e.Bubble(func() {
 		sim := simkern.NewSim(tp, e.Trace)
 		defer sim.Close()
 		hx.Rec.Reset()
+		ambientCtx := func(ctx context.Context, n byte) context.Context {
+			if !ambient {
+				return ctx
+			}
+			sc := trace.NewSpanContext(trace.SpanContextConfig{
+				TraceID: trace.TraceID{0xab, n, 1, 2, 3, 4, 5, 6, 7, 8, 9, 10, 11, 12, 13, 14},
+				SpanID:  trace.SpanID{0xcd, n, 1, 2, 3, 4, 5, 6}, TraceFlags: trace.FlagsSampled})
+			return trace.ContextWithSpanContext(ctx, sc)
+		}
+		if ambient {
+			hx.RequestContext = func(r *http.Request) context.Context { return ambientCtx(r.Context(), 1) }
+			defer func() { hx.RequestContext = nil }()
+		}
 		w := &o43World{sim: sim, current: map[string]*o43Call{}}
 		tel := o43NewTelemetry(w, cfg)
 		defer tel.shutdown()
@@ -665,7 +684,7 @@ func C43(e *simkern.Env) {
 				cc.R.Frag = 1 + tp.Draw(64)
 			}
 			sim.Spawn(sname, func() {
-				srv.ServeWithContext(context.Background(), sc, sc)
+				srv.ServeWithContext(ambientCtx(context.Background(), byte(2+pi)), sc, sc)
 				_ = sc.Close()
 			})
 			sim.Spawn(cname, func() {
